@@ -42,6 +42,8 @@ type Solver struct {
 	ufDeclared map[string]bool
 	seed       int
 	usePushPop bool
+	scopeMark  map[int]bool
+	scopeUF    map[string]bool
 	paths      int
 	tsize      map[*Term]int
 	texts      map[*Term]*termText
@@ -291,13 +293,43 @@ func (s *Solver) ref(t *Term) string {
 	return tx.text
 }
 
-func (s *Solver) Push() { s.send("(push 1)"); s.level++ }
+func (s *Solver) Push() {
+	s.send("(push 1)")
+	s.level++
+	s.scopeMark = map[int]bool{}
+	for id := range s.defined {
+		s.scopeMark[id] = true
+	}
+	s.scopeUF = map[string]bool{}
+	for f := range s.ufDeclared {
+		s.scopeUF[f] = true
+	}
+}
 func (s *Solver) Pop() {
 	if s.level > 0 {
 		s.send("(pop 1)")
 		s.level--
 	}
 }
+// PopScope closes a scope opened with Push inside a path: names introduced in
+// the scope are forgotten (they were declared inside it).
+func (s *Solver) PopScope() {
+	if s.scopeMark != nil {
+		for id := range s.defined {
+			if !s.scopeMark[id] {
+				delete(s.defined, id)
+			}
+		}
+		for f := range s.ufDeclared {
+			if !s.scopeUF[f] {
+				delete(s.ufDeclared, f)
+			}
+		}
+		s.scopeMark, s.scopeUF = nil, nil
+	}
+	s.Pop()
+}
+
 func (s *Solver) PopAll() {
 	for s.level > 0 {
 		s.Pop()
